@@ -16,6 +16,7 @@ import (
 	"flag"
 	"fmt"
 	"math/rand"
+	"net/http"
 	"os"
 	"path/filepath"
 	"strings"
@@ -35,7 +36,7 @@ import (
 )
 
 var partStates = []string{"absent", "valid-1", "valid-half", "valid-size-2", "garbage-1", "garbage-half", "garbage-size-2", "len-size-1", "len-size", "longer"}
-var getFaults = []string{"ok", "200-ignore-range", "206-wrong-start", "206-no-content-range", "206-malformed-content-range", "416", "404", "500", "503", "429", "cut-after-k", "short-body", "extra-bytes", "bitflip", "other-object", "empty-body", "reset", "redirect", "wrong-length-header"}
+var getFaults = []string{"ok", "200-ignore-range", "206-wrong-start", "206-no-content-range", "206-malformed-content-range", "416", "404", "500", "503", "429", "429-no-retry-after", "429-garbage-retry-after", "429-date-retry-after", "cut-after-k", "short-body", "extra-bytes", "bitflip", "other-object", "empty-body", "reset", "redirect", "wrong-length-header"}
 var agentFaults = []string{"ok", "truncated-file", "other-object-file", "missing-file", "final-path-itself", "wrong-oid-reply", "error-reply", "premature-exit", "garbage-line", "progress-then-ok"}
 
 type tcase struct {
@@ -99,7 +100,7 @@ func gen(seed int64, idx int, systematic []tcase) tcase {
 	n := 1 + r.Intn(c.MaxRetries+2)
 	for i := 0; i < n; i++ {
 		f := getFaults[r.Intn(len(getFaults))]
-		if f == "429" && r.Intn(3) != 0 {
+		if (f == "429" || f == "429-date-retry-after") && r.Intn(3) != 0 {
 			f = "503"
 		}
 		c.Script = append(c.Script, f)
@@ -271,6 +272,12 @@ func runCase(c tcase, scratch string, seed int64) *result {
 			return &fakelfs.Fault{Status: st}
 		case "429":
 			return &fakelfs.Fault{Status: 429, Header: map[string]string{"Retry-After": "1"}}
+		case "429-no-retry-after":
+			return &fakelfs.Fault{Status: 429}
+		case "429-garbage-retry-after": // neither whole seconds nor an HTTP date
+			return &fakelfs.Fault{Status: 429, Header: map[string]string{"Retry-After": []string{"1.5", "120s", "soon", "-1", ""}[k%5]}}
+		case "429-date-retry-after":
+			return &fakelfs.Fault{Status: 429, Header: map[string]string{"Retry-After": time.Now().Add(1500 * time.Millisecond).UTC().Format(http.TimeFormat)}}
 		case "cut-after-k":
 			return &fakelfs.Fault{CloseAfter: 1 + n/3}
 		case "short-body":
@@ -522,7 +529,7 @@ func main() {
 	}
 	run := evid.New("C02", "fault_enumeration")
 	defer sbx.RemoveBase()
-	run.Rule = "Part A: the real transfer queue with the real basic download adapter / custom-transfer adapter (in-process, -race) against a scripted fake LFS server or scripted transfer agent: systematic table of every (.part state x first GET answer class) pair and every agent misbehaviour, plus seeded random scripts of length 1..retries+2 over 19 GET fault classes (status 200/206/416/404/5xx/429, body exact/prefix/cut connection/extra bytes/bit flip/other object/empty, Content-Range correct/wrong start/missing/malformed, ignore Range, reset, redirect) x 10 .part states x pre-existing garbage at the final path x 1-3 objects. Oracle: reported success => SHA-256(final path) == oid; reported failure => final path identical (existence, hash, inode) to before; nothing left outside lfs/incomplete|tmp; every file under lfs/objects hashes to its name. Part C: the real pure-SSH download adapter of the git-lfs binary (git lfs fetch / pull, process level) against a scripted fake ssh peer speaking the git-lfs-transfer pkt-line protocol: every get-object answer class (sizes announced wrong/missing/duplicated/malformed, data short/long/bit-flipped/substituted/empty, status 404/500/206/garbage, missing delimiter, delimiter or empty packet inside the data, close before/inside the data, extra packets after the flush, tiny/maximal packets) and every batch answer class (noop / upload action / omitted / unknown oid / wrong size) once, a sample of (.part state x answer class) pairs, garbage at the final path, seeded random scripts over 1-4 objects of 1 B-200 kB; three ways of installing the ssh program, three URL forms, three sshtransfer settings; class = (.part state, first answer, final pre-state, command, exit). Part D: the built-in standalone file agent (file:// remote, git lfs fetch / pull at process level) with each source object in the remote's store one of {intact, missing, truncated, extended, bit-flipped, another object's bytes, empty, a directory}, optional garbage at the final path; same oracle at process level. Part E: the local object store on another filesystem than the temporary area (.git/lfs/objects a symbolic link into /dev/shm), git lfs fetch at process level with and without an injected write error (ENOSPC/EIO at the 1st-3rd write) on the object's final path; same oracle. Part B: two race-instrumented git-lfs processes fetching the same objects with an observer; porcupine write-once-register check. Class = (adapter, .part state, first answer, final pre-state, retries)."
+	run.Rule = "Part A: the real transfer queue with the real basic download adapter / custom-transfer adapter (in-process, -race) against a scripted fake LFS server or scripted transfer agent: systematic table of every (.part state x first GET answer class) pair and every agent misbehaviour, plus seeded random scripts of length 1..retries+2 over 22 GET fault classes (status 200/206/416/404/5xx, 429 with Retry-After in seconds / as HTTP date / absent / unparsable, body exact/prefix/cut connection/extra bytes/bit flip/other object/empty, Content-Range correct/wrong start/missing/malformed, ignore Range, reset, redirect) x 10 .part states x pre-existing garbage at the final path x 1-3 objects. Oracle: reported success => SHA-256(final path) == oid; reported failure => final path identical (existence, hash, inode) to before; nothing left outside lfs/incomplete|tmp; every file under lfs/objects hashes to its name. Part C: the real pure-SSH download adapter of the git-lfs binary (git lfs fetch / pull, process level) against a scripted fake ssh peer speaking the git-lfs-transfer pkt-line protocol: every get-object answer class (sizes announced wrong/missing/duplicated/malformed, data short/long/bit-flipped/substituted/empty, status 404/500/206/garbage, missing delimiter, delimiter or empty packet inside the data, close before/inside the data, extra packets after the flush, tiny/maximal packets) and every batch answer class (noop / upload action / omitted / unknown oid / wrong size) once, a sample of (.part state x answer class) pairs, garbage at the final path, seeded random scripts over 1-4 objects of 1 B-200 kB; three ways of installing the ssh program, three URL forms, three sshtransfer settings; class = (.part state, first answer, final pre-state, command, exit). Part D: the built-in standalone file agent (file:// remote, git lfs fetch / pull at process level) with each source object in the remote's store one of {intact, missing, truncated, extended, bit-flipped, another object's bytes, empty, a directory}, optional garbage at the final path; same oracle at process level. Part E: the local object store on another filesystem than the temporary area (.git/lfs/objects a symbolic link into /dev/shm), git lfs fetch at process level with and without an injected write error (ENOSPC/EIO at the 1st-3rd write) on the object's final path; same oracle. Part B: two race-instrumented git-lfs processes fetching the same objects with an observer; porcupine write-once-register check. Class = (adapter, .part state, first answer, final pre-state, retries)."
 	run.Assumptions = []string{"success = the object is delivered on the queue's Watch channel; failure = it is not and an error is reported", "back-off sleeps scaled by 0.01 through the verif hook", "Part C (pure SSH adapter) is judged at process level: a command that exits 0 reports every object of the tree successful; a command that exits non-zero reports nothing per object, so each object must be either untouched or valid; in addition the adapter's own success report is read from the verif-tagged hook event adapter.attempt.ok (VERIF_TRACE)", "the fake ssh ignores host, port and all ssh options and refuses git-lfs-authenticate; pure SSH is selected by lfs.<url>.sshtransfer=always, lfs.sshtransfer=always or the default negotiate order", "the ssh adapter never resumes from lfs/incomplete/<oid>.part (it downloads into a fresh temp file); the .part states are still planted to show they have no influence"}
 	sys := systematicCases()
 	total := len(sys) + run.N(160, 3000)
